@@ -148,3 +148,12 @@ claim('C06', 'bounded symbolic execution of parse -> serialise (-> parse -> seri
       'CRLF headers) with a symbolic preamble / diff section: when the object model accepts the file, re-serialising '
       'succeeds, the section content is carried, and the result is a fixed point of parse+serialise.',
       BASE_NOTE, 'DESIGN.md section 4, C06')
+
+claim('C15', 'bounded symbolic execution with a *symbolic codec-name spelling*: instrumented platform encodings.normalize_encoding + alias table decide what the name resolves to, then the real newline/BOM helpers, writer and reader run with that name; z3',
+      'The encoding name is a symbolic string of 1..6 (quick) / 1..8 (thorough) characters over [A-Za-z0-9_.-] (not '
+      'int-like). On every path the platform resolution (instrumented normalize_encoding, alias table, codec modules) '
+      'ends in a concrete codec or LookupError; for every stateless text codec reached, get_newline_for_type / strip_bom / '
+      'guess_line_endings must return the BOM-free LF/CRLF of that codec, and writer+reader with encoding=<spelling> must '
+      'give the same text and content bytes as under the canonical spelling (symbolic text for the UTF/latin-1/ascii '
+      'families, concrete text through the real codec for all others).',
+      BASE_NOTE + ' Stateful / non-text codecs are outside the property.', 'DESIGN.md section 4, C15')
